@@ -370,7 +370,7 @@ def knn(X, k=1):
     sorted_dist.sort(0)
 
     # neighbour system
-    bool_knn = dist < sorted_dist[k + 1]
+    bool_knn = dist <= sorted_dist[k]
     bool_knn += bool_knn.T
     # xor diagonal
     bool_knn ^= np.diag(np.diag(bool_knn))
